@@ -356,6 +356,32 @@ def concurrent_reader_scenario(ctx, viol):
         pr.destroy()
 
 
+def two_spellings_scenario(ctx, viol):
+    """One target reached through two relative spellings in one build (b.do: redo-ifchange c; sub/a.do: redo-ifchange
+    ../c, while c is still locked): every stderr line of c appears exactly once, in the live output and in the replay."""
+    pr = Project()
+    try:
+        pr.write("c.do", "sleep 0.5\necho line-from-c >&2\necho c\n")
+        pr.write("b.do", "redo-ifchange c\necho line-from-b >&2\necho b\n")
+        pr.write("sub/a.do", "sleep 0.1\nredo-ifchange ../c\necho line-from-a >&2\necho a\n")
+        rc, out, err = pr.run(["redo", "-j3", "b", "sub/a"], timeout=60)
+        rc2, out2, err2 = pr.run(["redo-log", "-r", "b", "sub/a"], timeout=60)
+        problems = []
+        for what, text in (("live output", err), ("redo-log -r", out2 + err2)):
+            for ln in ("line-from-a", "line-from-b", "line-from-c"):
+                n = sum(1 for l in text.splitlines() if l.strip() == ln)
+                if n != 1:
+                    problems.append("%s shows %r %d times" % (what, ln, n))
+        if rc != 0 or rc2 != 0:
+            problems.append("exit statuses %s %s" % (rc, rc2))
+        if problems:
+            p = write_replay("C18", "two-spellings", dict(kind="impl-monitor", problems=problems, live=err[-1500:], replay=(out2 + err2)[-1500:],
+                                                          scenario="c.do (slow, one stderr line); b.do: redo-ifchange c; sub/a.do: redo-ifchange ../c; redo -j3 b sub/a; redo-log -r b sub/a"))
+            viol.append(Violation("C18", p, "a target reached through two spellings: " + "; ".join(problems[:3])))
+    finally:
+        pr.destroy()
+
+
 def run(ctx):
     rng = random.Random(ctx["seed"])
     viol = ctx.setdefault("violations", [])
@@ -373,6 +399,8 @@ def run(ctx):
         fragments_scenario(ctx, viol)
     if not viol:
         concurrent_reader_scenario(ctx, viol)
+    if not viol:
+        two_spellings_scenario(ctx, viol)
     return dict(evaluations=s1["requests"] + s2.get("replays", 0) + s3.get("builds", 0),
                 distinct_nontrivial=s1["parse_accepted"] + s2.get("replays", 0) - s2.get("errors", 0) + s3.get("builds", 0),
                 rule="record-shaped and malformed lines from a seeded grammar (non-trivial = accepted by the parser); synthetic 6-target log forests (records do/unchanged/waiting/done/other, look-alikes, missing files, cycles) replayed by the real redo-log -r with and without -u (non-trivial = replay without error); live builds of random graphs at several -j with numbered/partial/70 kB/trailing-whitespace lines",
